@@ -580,8 +580,11 @@ def run(tier, seed):
         "reflected number, every pair T_i == T_j and every any.ty == T_j is one evaluation.")
     v.assumptions = [
         "proved: bit packing/unpacking of simple ids, asserts never fire, simple ids carry the specified size/align/width/sign/"
-        "mutability, injectivity of simple ids except the known class, arithmetic of compound ids (kind, counter < 2^26)",
-        "modelled and compared on every run, not proved: the to_type_id table walk (lookup, recursion order, per-kind counters)",
+        "mutability, injectivity of simple ids except the known class, arithmetic of compound ids (kind, counter < 2^26), and the "
+        "table invariant of the modelled to_type_id walk for any request sequence (a type keeps its id; different compound types "
+        "never share an id; id equality = type equality outside the isize/i64 class, final counters <= 2^26 as hypothesis)",
+        "modelled and compared on every run, not proved: that the layout/info arrays emitted by ty_info.rs are in per-kind counter "
+        "order (index i of a kind's array describes the type numbered i)",
         "not modelled, end to end only: ty_info.rs table emission (layout arrays, info arrays, member/variant tables, relocations), "
         "cast_into_memory (_, Any)/(_, Type); 64-bit host only for stream B",
         "type identity oracle in stream B: struct/enum/distinct definitions are nominal per definition, all other constructors structural",
